@@ -1,98 +1,1032 @@
 """
 Regenerates lean/PedalModel/Gen/TimeoutGen.lean from the tree under test (C14).
 
-Four facts about the "one side finalizes a timed-out execution" protocol; three read from the AST:
-  claim        pedal/sandbox/timeout.py: `timeout()` has an `if` whose test calls `.is_alive()` AND
-               `.claim_finish()` before terminating the thread;  AND  pedal/sandbox/sandbox.py:
-               `Sandbox._stop_mocking` has, before it stops the patches, an `if` whose test calls
-               `_claim_finish()` and whose body raises / returns.   (Only one of the two present is
-               not a protocol: the translator refuses -> "translator broken".)
-  handlerPops  the `except TimeoutError` handler of `Sandbox._execute_with_timeout` pops
-               `self._current_stdout` (or calls `self._stop_mocking`)
-  handlerBumps ... and advances `self._next_context_id`
-and one observed on the imported module (no timing involved: the thread has been joined):
-  termTolerant `InterruptableThread.terminate()` on a thread that has already ended returns normally
-               (the pinned tree fails `assert self.is_alive()`); however the repair is written.
-The control flow of the two threads is hand-modelled (PedalModel/TimeoutMachine.lean) and tied to the
-code by running the real code under forced schedules (hooks) against the model.
+The interleaving machine (lean/PedalModel/TimeoutMachine.lean) is parameterised by four protocol facts.  Three of
+them are about three pieces of code, and for each piece this module emits TWO decision trees in the IR of
+lean/PedalModel/TimeoutIR.lean (questions asked, observable operations in order, how the piece ends):
+
+  grader    pedal/sandbox/timeout.py  `timeout()`:  is_alive / claim_finish / terminate / TimeoutError
+  student   pedal/sandbox/sandbox.py  `Sandbox._stop_mocking`:  claim check before stop-patches / pop / append_output
+  handler   pedal/sandbox/sandbox.py  `Sandbox._execute_with_timeout` from the moment `timeout(...)` raises
+            TimeoutError:  stop-patches / pop stdout / append_output / capture / id bump
+
+  ...Ast    symbolic execution of the Python AST: locals are followed (a flag stored before the `if`, a result held in
+            a local), private helper functions / methods are INLINED (`self._helper(...)`, `thread.helper()`, module
+            level `_helper(...)`, static methods, default arguments), conditions are split compositionally (and / or /
+            not / conditional expression / `is None` / `len(x) > 0`, short-circuit order kept) into the questions they
+            ask, early `return` / `raise` / `else` / try-except-finally all end up as the same tree.  What is not
+            understood becomes an `opaque` operation / an `other` question / an `opaque` cut - never a default.
+  ...Probe  the same tree MEASURED: the real function is run on instrumented objects (a stub subclass of the real
+            InterruptableThread; a Sandbox subclass whose stacks / id / finalization methods log; `timeout` replaced by
+            a function that raises TimeoutError) once per answer to the questions, and the logged traces are merged.
+
+Lean computes the facts from the trees (all answers evaluated), AST first, measurement as fallback and cross-check
+(TimeoutIR.combine).  The fourth fact is only measured (no timing involved: the thread has been joined):
+  termTolerant `InterruptableThread.terminate()` on a thread that has already ended returns normally.
 """
 import ast
 import hashlib
+import io
 import os
+import threading
 
 from common import LEAN_DIR, REPO, write_if_changed
 
 OUT = os.path.join(LEAN_DIR, "PedalModel", "Gen", "TimeoutGen.lean")
 
-
-def _calls_attr(node, attr):
-    return any(isinstance(n, ast.Call) and isinstance(n.func, ast.Attribute) and n.func.attr == attr
-               for n in ast.walk(node))
-
-
-def _is_self_attr(node, attr):
-    return (isinstance(node, ast.Attribute) and node.attr == attr and isinstance(node.value, ast.Name)
-            and node.value.id == "self")
+DEFAULT_CLAIM_NAME = "claim_finish"
+NODE_BUDGET = 40000
+MAX_DEPTH = 8
 
 
-def _function(tree, name, cls=None):
-    for node in ast.walk(tree):
-        if cls is not None:
-            if isinstance(node, ast.ClassDef) and node.name == cls:
-                for sub in node.body:
-                    if isinstance(sub, ast.FunctionDef) and sub.name == name:
-                        return sub
-        elif isinstance(node, ast.FunctionDef) and node.name == name:
-            return node
-    return None
+# ----------------------------------------------------------------------------------------------------------------
+# trees
+
+class Table:
+    """comment table of the generated file: what the numbered `other` questions / `opaque` operations are"""
+
+    def __init__(self):
+        self.texts = []
+        self.index = {}
+
+    def idx(self, key, text):
+        if key not in self.index:
+            self.index[key] = len(self.texts)
+            self.texts.append(" ".join(str(text).split())[:160])
+        return self.index[key]
 
 
-def facts():
-    with open(os.path.join(REPO, "pedal", "sandbox", "timeout.py"), encoding="utf-8") as fh:
-        ttree = ast.parse(fh.read())
-    with open(os.path.join(REPO, "pedal", "sandbox", "sandbox.py"), encoding="utf-8") as fh:
-        stree = ast.parse(fh.read())
-    tfn = _function(ttree, "timeout")
-    if tfn is None:
-        raise ValueError("pedal.sandbox.timeout.timeout not found")
-    grader_claims = False
-    for node in ast.walk(tfn):
-        if isinstance(node, ast.If) and _calls_attr(node.test, "is_alive") and _calls_attr(node, "terminate"):
-            grader_claims = _calls_attr(node.test, "claim_finish")
-    sm = _function(stree, "_stop_mocking", "Sandbox")
-    if sm is None:
-        raise ValueError("Sandbox._stop_mocking not found")
-    student_checks = False
-    for stmt in sm.body:
-        if _calls_attr(stmt, "_stop_patches"):
-            break
-        if isinstance(stmt, ast.If) and _calls_attr(stmt.test, "_claim_finish") and any(
-                isinstance(n, (ast.Raise, ast.Return)) for b in stmt.body for n in ast.walk(b)):
-            student_checks = True
-    if grader_claims != student_checks:
-        raise ValueError("half a claim protocol: timeout() claims=%s, _stop_mocking checks=%s"
-                         % (grader_claims, student_checks))
-    ewt = _function(stree, "_execute_with_timeout", "Sandbox")
-    if ewt is None:
-        raise ValueError("Sandbox._execute_with_timeout not found")
-    handler = None
-    for node in ast.walk(ewt):
-        if isinstance(node, ast.ExceptHandler) and isinstance(node.type, ast.Name) and node.type.id == "TimeoutError":
-            handler = node
-    if handler is None:
-        raise ValueError("no `except TimeoutError` handler in Sandbox._execute_with_timeout")
-    pops = _calls_attr(handler, "_stop_mocking") or any(
-        isinstance(n, ast.Call) and isinstance(n.func, ast.Attribute) and n.func.attr == "pop"
-        and _is_self_attr(n.func.value, "_current_stdout") for n in ast.walk(handler))
-    bumps = any(isinstance(n, ast.AugAssign) and _is_self_attr(n.target, "_next_context_id") for n in ast.walk(handler))
-    return {"claim": grader_claims, "handlerPops": pops, "handlerBumps": bumps, "termTolerant": term_tolerant()}
+class TooBig(Exception):
+    pass
+
+
+def leaf(x):
+    return ("leaf", x)
+
+
+def lean_atom(a):
+    return "(.other %d)" % a[1] if isinstance(a, tuple) else "." + a
+
+
+def lean_eff(e):
+    return "(.opaque %d)" % e[1] if isinstance(e, tuple) else "." + e
+
+
+def lean_tree(t, indent=2):
+    pad = " " * indent
+    if t[0] == "leaf":
+        return "%s(.leaf .%s)" % (pad, t[1])
+    if t[0] == "opaque":
+        return "%s(.opaque %d)" % (pad, t[1])
+    if t[0] == "eff":
+        # a run of operations on one line each, the continuation at the same indent (keeps deep chains readable)
+        return "%s(.eff %s\n%s)" % (pad, lean_eff(t[1]), lean_tree(t[2], indent))
+    if t[0] == "ask":
+        return "%s(.ask %s\n%s\n%s)" % (pad, lean_atom(t[1]), lean_tree(t[2], indent + 2), lean_tree(t[3], indent + 2))
+    raise ValueError(t)
+
+
+def tree_size(t):
+    if t[0] == "eff":
+        return 1 + tree_size(t[2])
+    if t[0] == "ask":
+        return 1 + tree_size(t[2]) + tree_size(t[3])
+    return 1
+
+
+def has_events(t):
+    """does the tree contain any operation or any recognised question (not only `other` questions)?"""
+    if t[0] == "eff" or t[0] == "opaque":
+        return True
+    if t[0] == "ask":
+        return (not isinstance(t[1], tuple)) or has_events(t[2]) or has_events(t[3])
+    return t[1] not in ("fall",)
+
+
+# ----------------------------------------------------------------------------------------------------------------
+# symbolic values
+
+class Sym:
+    __slots__ = ("kind", "data")
+
+    def __init__(self, kind, data=None):
+        self.kind, self.data = kind, data
+
+    def __repr__(self):
+        return "Sym(%s,%r)" % (self.kind, self.data)
+
+
+TRUE, FALSE, NONE, OPAQUE = Sym("const", True), Sym("const", False), Sym("const", None), Sym("opaque")
+TAINTING = {"self", "thread", "stdouts", "patches", "contexts"}      # passing these to unknown code may change them
+NOT_NONE = {"self", "thread", "stdouts", "patches", "contexts", "buf", "exc", "curthread", "selfattr_method",
+            "claimfn_bound", "modfunc", "builtin", "cls_thread", "cls_sandbox", "mod"}
+ALWAYS_TRUE = {"self", "thread", "buf", "exc", "curthread", "claimfn_bound", "modfunc", "builtin", "cls_thread",
+               "cls_sandbox", "mod"}
+TRACKED = {"_current_stdout": "stdouts", "_current_patches": "patches", "_context": "contexts"}
+EXC_NAMES = {"TimeoutError", "SystemExit", "BaseException", "Exception", "ValueError", "RuntimeError", "KeyboardInterrupt",
+             "AssertionError", "TypeError", "IndexError", "KeyError", "AttributeError", "OSError", "SystemError"}
+PURE_BUILTINS = {"len", "bool", "isinstance", "type", "str", "repr", "int", "id", "print", "format", "tuple", "list",
+                 "iter", "next", "callable", "any", "all", "sorted", "reversed", "enumerate", "zip", "range", "min", "max"}
+CATCHES = {   # which handler types catch which raised kind
+    "TimeoutError": {"TimeoutError", "OSError", "Exception", "BaseException", None},
+    "SystemExit": {"SystemExit", "BaseException", None},
+    "other": {"Exception", "BaseException", None},
+}
+EXIT_OF = {"TimeoutError": "raiseTimeout", "SystemExit": "raiseSystemExit", "other": "raiseOther"}
+
+
+class Frame:
+    __slots__ = ("env", "ret_k", "raise_k", "module", "depth", "stack", "cur_exc")
+
+    def __init__(self, env, ret_k, raise_k, module, depth=0, stack=(), cur_exc=None):
+        self.env, self.ret_k, self.raise_k, self.module = env, ret_k, raise_k, module
+        self.depth, self.stack, self.cur_exc = depth, stack, cur_exc
+
+    def set(self, name, val):
+        env = dict(self.env)
+        env[name] = val
+        return Frame(env, self.ret_k, self.raise_k, self.module, self.depth, self.stack, self.cur_exc)
+
+    def with_(self, **kw):
+        f = Frame(self.env, self.ret_k, self.raise_k, self.module, self.depth, self.stack, self.cur_exc)
+        for k, v in kw.items():
+            setattr(f, k, v)
+        return f
+
+
+class Module:
+    def __init__(self, name, path):
+        self.name = name
+        with open(path, encoding="utf-8") as fh:
+            self.tree = ast.parse(fh.read())
+        self.funcs = {n.name: n for n in self.tree.body if isinstance(n, ast.FunctionDef)}
+        self.classes = {}
+        for n in self.tree.body:
+            if isinstance(n, ast.ClassDef):
+                self.classes[n.name] = {m.name: m for m in n.body if isinstance(m, ast.FunctionDef)}
+
+
+def decorator_names(fn):
+    out = set()
+    for d in fn.decorator_list:
+        if isinstance(d, ast.Name):
+            out.add(d.id)
+        elif isinstance(d, ast.Attribute):
+            out.add(d.attr)
+    return out
+
+
+class Exec:
+    """CPS symbolic executor: every function returns a tree; `k` is what happens next."""
+
+    def __init__(self, modules, table, claim_name):
+        self.modules, self.table, self.claim_name = modules, table, claim_name
+        self.nodes = 0
+
+    # -- tree construction (budgeted)
+    def _tick(self):
+        self.nodes += 1
+        if self.nodes > NODE_BUDGET:
+            raise TooBig("more than %d tree nodes" % NODE_BUDGET)
+
+    def eff(self, e, k):
+        self._tick()
+        return ("eff", e, k())
+
+    def ask(self, a, kt, kf):
+        self._tick()
+        return ("ask", a, kt(), kf())
+
+    def opaque_eff(self, node, why, k):
+        n = self.table.idx(("eff", id(node)), "%s: %s" % (why, unparse(node)))
+        return self.eff(("opaque", n), k)
+
+    def other(self, node, kt, kf):
+        n = self.table.idx(("cond", id(node)), "condition: " + unparse(node))
+        return self.ask(("other", n), kt, kf)
+
+    # -- names / attributes
+    def global_name(self, name, fr):
+        mod = self.modules[fr.module]
+        if name == "InterruptableThread":
+            return Sym("cls_thread")
+        if name == "Sandbox":
+            return Sym("cls_sandbox")
+        if name in EXC_NAMES:
+            return Sym("exc", name)
+        if name in ("threading", "sys"):
+            return Sym("mod", name)
+        if name == "timeout" and fr.module == "sandbox":
+            return Sym("fn_timeout")
+        if name in ("current_thread", "currentThread"):
+            return Sym("fn_curthread")
+        if name in mod.funcs:
+            return Sym("modfunc", name)
+        if name in ("getattr", "hasattr") or name in PURE_BUILTINS:
+            return Sym("builtin", name)
+        return OPAQUE
+
+    def attr(self, base, name):
+        k = base.kind
+        if k == "self":
+            if name in TRACKED:
+                return Sym(TRACKED[name])
+            if name == "_next_context_id":
+                return Sym("nextid")
+            if name == "__class__":
+                return Sym("cls_sandbox")
+            return Sym("selfattr", name)
+        if k == "cls_sandbox":
+            return Sym("selfattr", name)
+        if k == "thread":
+            return Sym("threadattr", name)
+        if k == "curthread":
+            return Sym("claimfn_bound") if name == self.claim_name else OPAQUE
+        if k == "mod":
+            if base.data == "threading" and name in ("current_thread", "currentThread"):
+                return Sym("fn_curthread")
+            if base.data == "sys" and name == "exit":
+                return Sym("fn_sysexit")
+            return OPAQUE
+        if k == "stdouts":
+            return Sym("stdoutsattr", name)
+        if k == "patches":
+            return Sym("patchesattr", name)
+        if k == "contexts":
+            return Sym("contextsattr", name)
+        return OPAQUE
+
+    # -- expressions
+    def ev_list(self, nodes, fr, k, acc=None):
+        acc = [] if acc is None else acc
+        if not nodes:
+            return k(acc)
+        return self.ev(nodes[0], fr, lambda v: self.ev_list(nodes[1:], fr, k, acc + [v]))
+
+    def ev(self, n, fr, k):
+        if n is None:
+            return k(NONE)
+        if isinstance(n, ast.Constant):
+            return k(Sym("const", n.value))
+        if isinstance(n, ast.Name):
+            if n.id in fr.env:
+                return k(fr.env[n.id])
+            return k(self.global_name(n.id, fr))
+        if isinstance(n, ast.Attribute):
+            return self.ev(n.value, fr, lambda b: k(self.attr(b, n.attr)))
+        if isinstance(n, ast.Call):
+            return self.call(n, fr, k)
+        if isinstance(n, (ast.BoolOp, ast.Compare)) or (isinstance(n, ast.UnaryOp) and isinstance(n.op, ast.Not)):
+            return self.cond(n, fr, lambda: k(TRUE), lambda: k(FALSE))
+        if isinstance(n, ast.IfExp):
+            return self.cond(n.test, fr, lambda: self.ev(n.body, fr, k), lambda: self.ev(n.orelse, fr, k))
+        if isinstance(n, ast.NamedExpr):
+            return self.ev(n.value, fr, k)      # (the binding itself is not followed)
+        if isinstance(n, ast.Starred):
+            return self.ev(n.value, fr, lambda v: k(OPAQUE))
+        if isinstance(n, ast.Lambda):
+            return k(OPAQUE)
+        kids = [c for c in ast.iter_child_nodes(n) if isinstance(c, ast.expr)]
+        return self.ev_list(kids, fr, lambda vs: k(OPAQUE))
+
+    def truthy(self, v, node, kt, kf):
+        k = v.kind
+        if k == "const":
+            return kt() if v.data else kf()
+        if k == "stdouts":
+            return self.ask("haveStdout", kt, kf)
+        if k == "claimfn":
+            return self.ask("plain", kf, kt)         # truthy = there IS a claim to make
+        if k in ALWAYS_TRUE:
+            return kt()
+        return self.other(node, kt, kf)
+
+    def is_none(self, v, node, kt, kf):
+        k = v.kind
+        if k == "const":
+            return kt() if v.data is None else kf()
+        if k == "claimfn":
+            return self.ask("plain", kt, kf)
+        if k in NOT_NONE:
+            return kf()
+        return self.other(node, kt, kf)
+
+    def cond(self, n, fr, kt, kf):
+        if isinstance(n, ast.BoolOp):
+            vals = list(n.values)
+            if isinstance(n.op, ast.And):
+                def go(i):
+                    if i == len(vals):
+                        return kt()
+                    return self.cond(vals[i], fr, lambda: go(i + 1), kf)
+                return go(0)
+
+            def go_or(i):
+                if i == len(vals):
+                    return kf()
+                return self.cond(vals[i], fr, kt, lambda: go_or(i + 1))
+            return go_or(0)
+        if isinstance(n, ast.UnaryOp) and isinstance(n.op, ast.Not):
+            return self.cond(n.operand, fr, kf, kt)
+        if isinstance(n, ast.IfExp):
+            return self.cond(n.test, fr, lambda: self.cond(n.body, fr, kt, kf), lambda: self.cond(n.orelse, fr, kt, kf))
+        if isinstance(n, ast.Compare) and len(n.ops) == 1:
+            op, left, right = n.ops[0], n.left, n.comparators[0]
+            none_l = isinstance(left, ast.Constant) and left.value is None
+            none_r = isinstance(right, ast.Constant) and right.value is None
+            if isinstance(op, (ast.Is, ast.IsNot, ast.Eq, ast.NotEq)) and (none_l or none_r) and not (none_l and none_r):
+                other_side = right if none_l else left
+                neg = isinstance(op, (ast.IsNot, ast.NotEq))
+                return self.ev(other_side, fr, lambda v: self.is_none(v, n, kf if neg else kt, kt if neg else kf))
+            # len(<stdout stack>) <op> <int>
+            if (isinstance(left, ast.Call) and isinstance(left.func, ast.Name) and left.func.id == "len"
+                    and len(left.args) == 1 and isinstance(right, ast.Constant) and isinstance(right.value, int)
+                    and not isinstance(right.value, bool)):
+                c = right.value
+                nonempty = {(ast.Gt, 0): True, (ast.NotEq, 0): True, (ast.GtE, 1): True,
+                            (ast.Eq, 0): False, (ast.Lt, 1): False, (ast.LtE, 0): False}.get((type(op), c))
+
+                def on_arg(v):
+                    if v.kind == "stdouts" and nonempty is not None:
+                        return self.ask("haveStdout", kt, kf) if nonempty else self.ask("haveStdout", kf, kt)
+                    return self.other(n, kt, kf)
+                return self.ev(left.args[0], fr, on_arg)
+            if isinstance(op, (ast.Is, ast.IsNot, ast.Eq, ast.NotEq)):
+                # two constants (flags held in locals compared with True / False)
+                def both(vs):
+                    a, b = vs
+                    if a.kind == "const" and b.kind == "const":
+                        same = (a.data is b.data) if isinstance(op, (ast.Is, ast.IsNot)) else (a.data == b.data)
+                        if isinstance(op, (ast.IsNot, ast.NotEq)):
+                            same = not same
+                        return kt() if same else kf()
+                    return self.other(n, kt, kf)
+                return self.ev_list([left, right], fr, both)
+            return self.ev_list([left, right], fr, lambda vs: self.other(n, kt, kf))
+        if isinstance(n, ast.Compare):
+            return self.ev_list([n.left] + list(n.comparators), fr, lambda vs: self.other(n, kt, kf))
+        return self.ev(n, fr, lambda v: self.truthy(v, n, kt, kf))
+
+    # -- calls
+    def call(self, n, fr, k):
+        def with_func(f):
+            kwnodes = [kw.value for kw in n.keywords]
+
+            def with_args(vals):
+                args = vals[:len(n.args)]
+                kwargs = {kw.arg: v for kw, v in zip(n.keywords, vals[len(n.args):])}
+                star = any(isinstance(a, ast.Starred) for a in n.args) or any(kw.arg is None for kw in n.keywords)
+                return self.dispatch(n, f, args, kwargs, star, fr, k)
+            return self.ev_list(list(n.args) + kwnodes, fr, with_args)
+        return self.ev(n.func, fr, with_func)
+
+    def dispatch(self, n, f, args, kwargs, star, fr, k):
+        kind = f.kind
+        allvals = list(args) + list(kwargs.values())
+        if kind == "threadattr":
+            name = f.data
+            if name == "is_alive":
+                return self.ask("alive", lambda: k(TRUE), lambda: k(FALSE))
+            if name == self.claim_name:
+                return self.ask("claim", lambda: k(TRUE), lambda: k(FALSE))
+            if name == "start":
+                return self.eff("start", lambda: k(NONE))
+            if name == "join":
+                timed = any(not (v.kind == "const" and v.data is None) for v in allvals) or star
+                return self.eff("joinTimed" if timed else "joinFull", lambda: k(NONE))
+            if name == "terminate":
+                return self.eff("terminate", lambda: k(NONE))
+            meth = self.modules["timeout"].classes.get("InterruptableThread", {}).get(name)
+            if meth is not None:
+                return self.inline(meth, Sym("thread"), args, kwargs, star, fr.with_(module="timeout"), k)
+            return self.opaque_eff(n, "unknown method of the thread", lambda: k(OPAQUE))
+        if kind == "cls_thread":
+            return k(Sym("thread"))
+        if kind == "selfattr":
+            name = f.data
+            if name == "_stop_patches":
+                return self.eff("stopPatches", lambda: k(NONE))
+            if name == "append_output":
+                return self.eff("appendOutput", lambda: k(NONE))
+            if name == "_capture_exception":
+                return self.eff("capture", lambda: k(OPAQUE))
+            meth = self.modules["sandbox"].classes.get("Sandbox", {}).get(name)
+            if meth is not None:
+                if args and args[0].kind == "self" and "staticmethod" not in decorator_names(meth) and len(args) > (
+                        len(meth.args.posonlyargs) + len(meth.args.args) - 1):
+                    args = args[1:]           # `Sandbox.method(self, ...)`
+                return self.inline(meth, Sym("self"), args, kwargs, star, fr.with_(module="sandbox"), k)
+            return self.opaque_eff(n, "unknown method of the sandbox", lambda: k(OPAQUE))
+        if kind == "stdoutsattr":
+            if f.data == "pop":
+                return self.eff("popStdout", lambda: k(Sym("buf")))
+            if f.data in ("copy", "count", "index", "__len__"):
+                return k(OPAQUE)
+            return self.opaque_eff(n, "operation on the stdout stack", lambda: k(OPAQUE))
+        if kind == "patchesattr":
+            if f.data == "pop":
+                return self.eff("stopPatches", lambda: k(OPAQUE))
+            if f.data in ("copy", "count", "index", "__len__"):
+                return k(OPAQUE)
+            return self.opaque_eff(n, "operation on the patch stack", lambda: k(OPAQUE))
+        if kind == "contextsattr":
+            if f.data in ("copy", "count", "index", "__len__"):
+                return k(OPAQUE)
+            return self.opaque_eff(n, "operation on the context list", lambda: k(OPAQUE))
+        if kind == "fn_curthread":
+            return k(Sym("curthread"))
+        if kind == "builtin" and f.data in ("getattr", "hasattr"):
+            if (len(args) >= 2 and args[0].kind in ("curthread", "thread") and args[1].kind == "const"
+                    and args[1].data == self.claim_name):
+                if f.data == "hasattr":
+                    return self.ask("plain", lambda: k(FALSE), lambda: k(TRUE))
+                if len(args) == 3 and args[2].kind == "const" and args[2].data is None:
+                    return k(Sym("claimfn"))
+                return k(Sym("claimfn_bound"))
+            if any(v.kind in ("curthread", "thread") for v in args[:1]):
+                return k(OPAQUE)
+            if args and args[0].kind == "self" and len(args) >= 2 and args[1].kind == "const" and isinstance(args[1].data, str):
+                return k(self.attr(args[0], args[1].data))
+            return k(OPAQUE)
+        if kind in ("claimfn", "claimfn_bound"):
+            return self.ask("claim", lambda: k(TRUE), lambda: k(FALSE))
+        if kind == "fn_sysexit":
+            return fr.raise_k("SystemExit")
+        if kind == "exc":
+            return k(Sym("exc", f.data))
+        if kind == "fn_timeout":
+            return fr.raise_k("TimeoutError")
+        if kind == "modfunc":
+            if f.data == "_verif_sync":
+                return k(NONE)
+            return self.inline(self.modules[fr.module].funcs[f.data], None, args, kwargs, star, fr, k)
+        if kind == "builtin":
+            return k(OPAQUE)
+        # unknown callee: harmless unless it is handed one of the objects the facts are about
+        if any(v.kind in TAINTING for v in allvals):
+            return self.opaque_eff(n, "unknown call receiving sandbox/thread state", lambda: k(OPAQUE))
+        return k(OPAQUE)
+
+    def inline(self, fn, self_val, args, kwargs, star, fr, k):
+        if fr.depth >= MAX_DEPTH or fn.name in fr.stack:
+            return self.opaque_eff(fn, "recursive / too deep helper %s" % fn.name, lambda: k(OPAQUE))
+        a = fn.args
+        params = [p.arg for p in a.posonlyargs + a.args]
+        decos = decorator_names(fn)
+        env = {}
+        if self_val is not None and "staticmethod" not in decos:
+            if params:
+                env[params[0]] = Sym("cls_sandbox") if ("classmethod" in decos and self_val.kind == "self") else self_val
+                params = params[1:]
+        defaults = list(a.defaults)
+        dmap = {}
+        allparams = [p.arg for p in a.posonlyargs + a.args]
+        for p, d in zip(allparams[len(allparams) - len(defaults):], defaults):
+            dmap[p] = d
+        for p, d in zip(a.kwonlyargs, a.kw_defaults):
+            if d is not None:
+                dmap[p.arg] = d
+        for i, p in enumerate(params):
+            if i < len(args) and not star:
+                env[p] = args[i]
+            elif p in kwargs:
+                env[p] = kwargs[p]
+            elif star:
+                env[p] = OPAQUE
+            elif p in dmap and isinstance(dmap[p], ast.Constant):
+                env[p] = Sym("const", dmap[p].value)
+            else:
+                env[p] = OPAQUE
+        for p in a.kwonlyargs:
+            if p.arg in kwargs:
+                env[p.arg] = kwargs[p.arg]
+            elif p.arg in dmap and isinstance(dmap[p.arg], ast.Constant):
+                env[p.arg] = Sym("const", dmap[p.arg].value)
+            else:
+                env[p.arg] = OPAQUE
+        if a.vararg:
+            env[a.vararg.arg] = OPAQUE
+        if a.kwarg:
+            env[a.kwarg.arg] = OPAQUE
+        inner = Frame(env, lambda v: k(v), fr.raise_k, fr.module, fr.depth + 1, fr.stack + (fn.name,), fr.cur_exc)
+        return self.block(fn.body, inner, lambda f2: k(NONE))
+
+    # -- statements
+    def block(self, stmts, fr, k):
+        if not stmts:
+            return k(fr)
+        return self.stmt(stmts[0], fr, lambda f2: self.block(stmts[1:], f2, k))
+
+    def assigned_names(self, stmts):
+        out = set()
+        for s in stmts:
+            for n in ast.walk(s):
+                if isinstance(n, ast.Name) and isinstance(n.ctx, ast.Store):
+                    out.add(n.id)
+        return out
+
+    def assign_target(self, t, v, node, value_node, fr, k):
+        if isinstance(t, ast.Name):
+            return k(fr.set(t.id, v))
+        if isinstance(t, (ast.Tuple, ast.List)):
+            f2 = fr
+            for name in self.assigned_names([ast.Expr(value=t)]) | {e.id for e in t.elts if isinstance(e, ast.Name)}:
+                f2 = f2.set(name, OPAQUE)
+            return k(f2)
+        if isinstance(t, ast.Attribute):
+            def on_base(b):
+                if b.kind == "self" and t.attr == "_next_context_id":
+                    if self.is_next_id_plus_one(value_node, fr):
+                        return self.eff("bump", lambda: k(fr))
+                    return self.opaque_eff(node, "assignment to _next_context_id", lambda: k(fr))
+                if b.kind == "self" and t.attr in TRACKED:
+                    return self.opaque_eff(node, "assignment to " + t.attr, lambda: k(fr))
+                return k(fr)
+            return self.ev(t.value, fr, on_base)
+        if isinstance(t, ast.Subscript):
+            def on_base(b):
+                if b.kind in ("stdouts", "patches", "contexts"):
+                    return self.opaque_eff(node, "item assignment", lambda: k(fr))
+                return k(fr)
+            return self.ev(t.value, fr, on_base)
+        return k(fr)
+
+    def is_next_id_plus_one(self, value_node, fr):
+        """`self._next_context_id + 1` / `1 + self._next_context_id` (directly or through a local holding the id)"""
+        if not (isinstance(value_node, ast.BinOp) and isinstance(value_node.op, ast.Add)):
+            return False
+
+        def is_one(x):
+            return isinstance(x, ast.Constant) and x.value == 1 and not isinstance(x.value, bool)
+
+        def is_id(x):
+            if isinstance(x, ast.Attribute) and x.attr == "_next_context_id" and isinstance(x.value, ast.Name):
+                return fr.env.get(x.value.id, OPAQUE).kind == "self"
+            if isinstance(x, ast.Name):
+                return fr.env.get(x.id, OPAQUE).kind == "nextid"
+            return False
+        return (is_id(value_node.left) and is_one(value_node.right)) or (is_one(value_node.left) and is_id(value_node.right))
+
+    def stmt(self, s, fr, k):
+        if isinstance(s, ast.Expr):
+            return self.ev(s.value, fr, lambda v: k(fr))
+        if isinstance(s, ast.Assign):
+            def on_val(v):
+                def go(i, f2):
+                    if i == len(s.targets):
+                        return k(f2)
+                    return self.assign_target(s.targets[i], v, s, s.value, f2, lambda f3: go(i + 1, f3))
+                return go(0, fr)
+            return self.ev(s.value, fr, on_val)
+        if isinstance(s, ast.AnnAssign):
+            if s.value is None:
+                return k(fr)
+            return self.ev(s.value, fr, lambda v: self.assign_target(s.target, v, s, s.value, fr, k))
+        if isinstance(s, ast.AugAssign):
+            t = s.target
+            if isinstance(t, ast.Attribute):
+                def on_base(b):
+                    if b.kind == "self" and t.attr == "_next_context_id":
+                        one = isinstance(s.value, ast.Constant) and s.value.value == 1 and not isinstance(s.value.value, bool)
+                        if isinstance(s.op, ast.Add) and one:
+                            return self.eff("bump", lambda: k(fr))
+                        return self.opaque_eff(s, "update of _next_context_id", lambda: k(fr))
+                    if b.kind == "self" and t.attr in TRACKED:
+                        return self.opaque_eff(s, "update of " + t.attr, lambda: k(fr))
+                    return self.ev(s.value, fr, lambda v: k(fr))
+                return self.ev(t.value, fr, on_base)
+            if isinstance(t, ast.Name):
+                return self.ev(s.value, fr, lambda v: k(fr.set(t.id, OPAQUE)))
+            return self.ev(s.value, fr, lambda v: k(fr))
+        if isinstance(s, ast.If):
+            return self.cond(s.test, fr, lambda: self.block(s.body, fr, k), lambda: self.block(s.orelse, fr, k))
+        if isinstance(s, ast.Return):
+            return self.ev(s.value, fr, lambda v: fr.ret_k(v))
+        if isinstance(s, ast.Raise):
+            if s.exc is None:
+                return fr.raise_k(fr.cur_exc or "other")
+
+            def on_exc(v):
+                name = v.data if v.kind == "exc" else None
+                return fr.raise_k(name if name in ("TimeoutError", "SystemExit") else "other")
+            return self.ev(s.exc, fr, on_exc)
+        if isinstance(s, ast.Try):
+            return self.try_(s, fr, k)
+        if isinstance(s, ast.With):
+            return self.ev_list([i.context_expr for i in s.items], fr, lambda vs: self.block(s.body, fr, k))
+        if isinstance(s, (ast.For, ast.While)):
+            head = s.iter if isinstance(s, ast.For) else s.test
+
+            def after_head(v):
+                f2 = fr
+                for name in self.assigned_names([s]):
+                    f2 = f2.set(name, OPAQUE)
+                scan = Frame(f2.env, lambda v: leaf("ret"), lambda kind: leaf(EXIT_OF[kind]), f2.module, f2.depth,
+                             f2.stack, f2.cur_exc)
+                body_tree = self.block(s.body, scan, lambda f3: leaf("fall"))
+                if has_events(body_tree):
+                    return self.opaque_eff(s, "loop whose body does something", lambda: self.block(s.orelse, f2, k))
+                return self.block(s.orelse, f2, k)
+            return self.ev(head, fr, after_head)
+        if isinstance(s, ast.Assert):
+            return self.ev(s.test, fr, lambda v: k(fr))
+        if isinstance(s, ast.Delete):
+            def go(i):
+                if i == len(s.targets):
+                    return k(fr)
+                t = s.targets[i]
+                if isinstance(t, (ast.Subscript, ast.Attribute)):
+                    return self.ev(t.value, fr, lambda b: self.opaque_eff(s, "del", lambda: go(i + 1))
+                                   if b.kind in ("stdouts", "patches", "contexts", "self") else go(i + 1))
+                return go(i + 1)
+            return go(0)
+        if isinstance(s, (ast.FunctionDef, ast.ClassDef)):
+            return k(fr.set(s.name, OPAQUE))
+        # pass, global, nonlocal, import, break, continue
+        return k(fr)
+
+    def try_(self, s, fr, k):
+        fin = s.finalbody
+
+        def after(f2):
+            return self.block(fin, f2, k) if fin else k(f2)
+
+        def ret_through(v):
+            return self.block(fin, fr, lambda f2: fr.ret_k(v)) if fin else fr.ret_k(v)
+
+        def raise_out(kind):
+            return self.block(fin, fr, lambda f2: fr.raise_k(kind)) if fin else fr.raise_k(kind)
+
+        def raise_in_body(kind):
+            for h in s.handlers:
+                names = []
+                if h.type is None:
+                    names = [None]
+                elif isinstance(h.type, ast.Tuple):
+                    names = [e.id if isinstance(e, ast.Name) else "?" for e in h.type.elts]
+                elif isinstance(h.type, ast.Name):
+                    names = [h.type.id]
+                else:
+                    names = ["?"]
+                if any(nm in CATCHES[kind] for nm in names):
+                    hf = fr.with_(ret_k=ret_through, raise_k=raise_out, cur_exc=kind)
+                    if h.name:
+                        hf = hf.set(h.name, Sym("exc", kind if kind != "other" else "Exception"))
+                    return self.block(h.body, hf, lambda f2: after(f2.with_(ret_k=fr.ret_k, raise_k=fr.raise_k,
+                                                                            cur_exc=fr.cur_exc)))
+            return raise_out(kind)
+
+        body_fr = fr.with_(ret_k=ret_through, raise_k=raise_in_body)
+
+        def after_body(f2):
+            f3 = f2.with_(ret_k=ret_through, raise_k=raise_out)
+            return self.block(s.orelse, f3, lambda f4: after(f4.with_(ret_k=fr.ret_k, raise_k=fr.raise_k)))
+        return self.block(s.body, body_fr, after_body)
+
+    # -- entry
+    def run(self, module, fn, env):
+        fr = Frame(env, lambda v: leaf("ret"), lambda kind: leaf(EXIT_OF[kind]), module, 0, (fn.name,))
+        return self.block(fn.body, fr, lambda f2: leaf("fall"))
+
+
+def unparse(node):
+    try:
+        if isinstance(node, (ast.FunctionDef, ast.For, ast.While)):
+            return ast.unparse(node).split("\n")[0]
+        return ast.unparse(node)
+    except Exception:
+        return type(node).__name__
+
+
+def find_claim_name(smod):
+    """the name under which sandbox.py looks the claim method up on the current thread"""
+    names = set()
+    for n in ast.walk(smod.tree):
+        if (isinstance(n, ast.Call) and isinstance(n.func, ast.Name) and n.func.id in ("getattr", "hasattr")
+                and len(n.args) >= 2 and isinstance(n.args[1], ast.Constant) and isinstance(n.args[1].value, str)
+                and "current_thread" in ast.dump(n.args[0])):
+            names.add(n.args[1].value)
+    return names.pop() if len(names) == 1 else DEFAULT_CLAIM_NAME
+
+
+def param_env(fn, first=None):
+    env = {}
+    params = [p.arg for p in fn.args.posonlyargs + fn.args.args + fn.args.kwonlyargs]
+    for i, p in enumerate(params):
+        env[p] = first if (i == 0 and first is not None) else OPAQUE
+    if fn.args.vararg:
+        env[fn.args.vararg.arg] = OPAQUE
+    if fn.args.kwarg:
+        env[fn.args.kwarg.arg] = OPAQUE
+    return env
+
+
+def ast_trees(table):
+    """-> ({'grader':tree,'student':tree,'handler':tree}, claim_name, notes)"""
+    notes = {}
+    modules = {"timeout": Module("timeout", os.path.join(REPO, "pedal", "sandbox", "timeout.py")),
+               "sandbox": Module("sandbox", os.path.join(REPO, "pedal", "sandbox", "sandbox.py"))}
+    claim_name = find_claim_name(modules["sandbox"])
+    out = {}
+
+    def attempt(name, thunk):
+        try:
+            out[name] = thunk()
+        except Exception as e:        # the reading of this piece failed: say so, the measurement may still know
+            notes[name + "_ast_error"] = "%s: %s" % (type(e).__name__, e)
+            out[name] = ("opaque", table.idx(("fail", name), "AST reading of %s failed: %s: %s" % (name, type(e).__name__, e)))
+
+    def grader():
+        fn = modules["timeout"].funcs.get("timeout")
+        if fn is None:
+            raise ValueError("pedal.sandbox.timeout.timeout not found")
+        return Exec(modules, table, claim_name).run("timeout", fn, param_env(fn))
+
+    def student():
+        fn = modules["sandbox"].classes.get("Sandbox", {}).get("_stop_mocking")
+        if fn is None:
+            raise ValueError("Sandbox._stop_mocking not found")
+        return Exec(modules, table, claim_name).run("sandbox", fn, param_env(fn, Sym("self")))
+
+    def handler():
+        cls = modules["sandbox"].classes.get("Sandbox", {})
+        fn = cls.get("_execute_with_timeout")
+        if fn is not None:
+            return Exec(modules, table, claim_name).run("sandbox", fn, param_env(fn, Sym("self")))
+        fn = cls.get("_execute")
+        if fn is None:
+            raise ValueError("neither Sandbox._execute_with_timeout nor Sandbox._execute found")
+        env = param_env(fn, Sym("self"))
+        if "threaded" not in env:
+            raise ValueError("Sandbox._execute has no `threaded` parameter")
+        env["threaded"] = TRUE
+        return Exec(modules, table, claim_name).run("sandbox", fn, env)
+
+    attempt("grader", grader)
+    attempt("student", student)
+    attempt("handler", handler)
+    return out, claim_name, notes
+
+
+# ----------------------------------------------------------------------------------------------------------------
+# measurement: the real functions on instrumented objects
+
+def merge_traces(runs, table, what):
+    """runs: list of (events, exit); an event is ('ask', atom, answer) or ('eff', name).  -> tree (a trie of the runs;
+    runs that tell different stories after the same answers make the spot `opaque`)"""
+    def build(rs, pos):
+        if not rs:
+            return ("opaque", table.idx(("probe-missing", what), "measurement of %s: no run with these answers" % what))
+        heads = set()
+        for ev, ex in rs:
+            heads.add(ev[pos][:2] if pos < len(ev) else ("end", ex))
+        if len(heads) != 1:
+            return ("opaque", table.idx(("probe-diverge", what, pos), "measurement of %s: runs diverge %s" % (what, sorted(map(str, heads)))))
+        h = heads.pop()
+        if h[0] == "end":
+            return leaf(h[1])
+        if h[0] == "eff":
+            return ("eff", h[1], build(rs, pos + 1))
+        yes = [r for r in rs if r[0][pos][2]]
+        no = [r for r in rs if not r[0][pos][2]]
+        return ("ask", h[1], build(yes, pos + 1), build(no, pos + 1))
+    return build(runs, 0)
+
+
+def classify_exit(fn):
+    """runs fn() -> exit kind"""
+    try:
+        fn()
+    except TimeoutError:
+        return "raiseTimeout"
+    except SystemExit:
+        return "raiseSystemExit"
+    except BaseException:
+        return "raiseOther"
+    return "ret"
+
+
+def import_tree_module(name, relpath):
+    import importlib
+    mod = importlib.import_module(name)
+    if os.path.realpath(mod.__file__) != os.path.realpath(os.path.join(REPO, *relpath)):
+        raise RuntimeError("%s imported from %s, not from the tree under test" % (name, mod.__file__))
+    return mod
+
+
+def probe_grader(table, claim_name):
+    tmod = import_tree_module("pedal.sandbox.timeout", ("pedal", "sandbox", "timeout.py"))
+    runs = []
+    for alive in (True, False):
+        for claim in (True, False):
+            log = []
+
+            def make_stub(alive=alive, claim=claim, log=log):
+                class Stub(tmod.InterruptableThread):
+                    def start(self):
+                        log.append(("eff", "start"))
+
+                    def join(self, timeout=None):
+                        log.append(("eff", "joinTimed" if timeout is not None else "joinFull"))
+
+                    def is_alive(self):
+                        log.append(("ask", "alive", alive))
+                        return alive
+
+                    def terminate(self):
+                        log.append(("eff", "terminate"))
+
+                def claim_method(self):
+                    log.append(("ask", "claim", claim))
+                    return claim
+                setattr(Stub, claim_name, claim_method)
+                Stub.__name__ = "InterruptableThread"
+                return Stub
+            original = tmod.InterruptableThread
+            tmod.InterruptableThread = make_stub()
+            try:
+                ex = classify_exit(lambda: tmod.timeout(0.01, lambda: None))
+            finally:
+                tmod.InterruptableThread = original
+            runs.append((log, ex))
+    # a run in which a question was not asked is the same run for both answers: the trie needs one copy
+    uniq = []
+    for r in runs:
+        if r not in uniq:
+            uniq.append(r)
+    return merge_traces(uniq, table, "timeout()")
+
+
+class LogList(list):
+    """a stack that logs what is done to it"""
+
+    def __init__(self, items, log, pop_name, what):
+        list.__init__(self, items)
+        self._log, self._pop_name, self._what = log, pop_name, what
+
+    def pop(self, *a):
+        self._log.append(("eff", self._pop_name))
+        return list.pop(self, *a)
+
+    def _other(name):
+        def f(self, *a, **k):
+            self._log.append(("eff", ("opaque-text", "%s.%s" % (self._what, name))))
+            return getattr(list, name)(self, *a, **k)
+        return f
+    for _n in ("append", "extend", "insert", "remove", "clear", "__delitem__", "__setitem__", "__iadd__", "reverse", "sort"):
+        locals()[_n] = _other(_n)
+    del _n, _other
+
+
+def make_probe_sandbox(log):
+    """a real Sandbox (fresh report) of a logging subclass, inside one pretend execution: one context, one stdout
+    buffer, one (empty) patch frame"""
+    smod = import_tree_module("pedal.sandbox.sandbox", ("pedal", "sandbox", "sandbox.py"))
+    from pedal.core.report import Report
+    state = {"armed": False}
+
+    class ProbeSandbox(smod.Sandbox):
+        @property
+        def _next_context_id(self):
+            return self.__dict__["_c14_next_id"]
+
+        @_next_context_id.setter
+        def _next_context_id(self, v):
+            old = self.__dict__.get("_c14_next_id")
+            if state["armed"]:
+                log.append(("eff", "bump") if (isinstance(old, int) and v == old + 1)
+                           else ("eff", ("opaque-text", "_next_context_id set to something else than +1")))
+            self.__dict__["_c14_next_id"] = v
+
+        def append_output(self, *a, **k):
+            if state["armed"]:
+                log.append(("eff", "appendOutput"))
+            return smod.Sandbox.append_output(self, *a, **k)
+
+        def _capture_exception(self, *a, **k):
+            if state["armed"]:
+                log.append(("eff", "capture"))
+            return None
+
+        def __setattr__(self, name, value):
+            if state["armed"] and name in ("_current_stdout", "_current_patches", "_context"):
+                log.append(("eff", ("opaque-text", "%s replaced" % name)))
+            object.__setattr__(self, name, value)
+    sb = ProbeSandbox(report=Report())
+    context = smod.SandboxContext(sb._next_context_id, "pass", "c14_probe.py", smod.SandboxContextKind.RUN, None, [], "",
+                                  None, sb.report.submission)
+    sb._context.append(context)
+    return smod, sb, context, state
+
+
+def arm(sb, state, log, with_stdout=True):
+    buf = io.StringIO()
+    buf.write("probe\n")
+    sb._current_stdout = LogList([buf] if with_stdout else [], log, "popStdout", "_current_stdout")
+    sb._current_patches = LogList([()], log, "stopPatches", "_current_patches")
+    state["armed"] = True
+
+
+def probe_student(table, claim_name):
+    runs = {}
+    for plain in (True, False):
+        runs[plain] = []
+        for claim in ((True,) if plain else (True, False)):
+            log = []
+            smod, sb, context, state = make_probe_sandbox(log)
+            arm(sb, state, log)
+            result = {}
+
+            def body(sb=sb, context=context, result=result):
+                result["exit"] = classify_exit(lambda: sb._stop_mocking(context))
+            if plain:
+                th = threading.Thread(target=body)
+            else:
+                def claim_method(self, claim=claim, log=log):
+                    log.append(("ask", "claim", claim))
+                    return claim
+                cls = type("C14ProbeThread", (threading.Thread,), {claim_name: claim_method})
+                th = cls(target=body)
+            th.daemon = True
+            th.start()
+            th.join(20)
+            state["armed"] = False
+            if "exit" not in result:
+                raise RuntimeError("_stop_mocking did not return within 20 s")
+            ex = "fall" if result["exit"] == "ret" else result["exit"]
+            runs[plain].append((number_opaque(log, table, "_stop_mocking"), ex))
+    uniq = []
+    for r in runs[False]:
+        if r not in uniq:
+            uniq.append(r)
+    return ("ask", "plain", merge_traces(runs[True], table, "_stop_mocking (ordinary thread)"),
+            merge_traces(uniq, table, "_stop_mocking (thread with a claim)"))
+
+
+def number_opaque(log, table, what):
+    out = []
+    for ev in log:
+        if ev[0] == "eff" and isinstance(ev[1], tuple):
+            out.append(("eff", ("opaque", table.idx(("probe-eff", what, ev[1][1]), "measured in %s: %s" % (what, ev[1][1])))))
+        else:
+            out.append(ev)
+    return out
+
+
+def probe_handler(table):
+    trees = {}
+    for with_stdout in (True, False):
+        log = []
+        smod, sb, context, state = make_probe_sandbox(log)
+        tmod = import_tree_module("pedal.sandbox.timeout", ("pedal", "sandbox", "timeout.py"))
+        fired = []
+
+        def fake_timeout(duration, func, *args, **kwargs):
+            fired.append(1)
+            raise TimeoutError("C14 probe: the time limit")
+        saved = {}
+        for m in (smod, tmod):
+            if hasattr(m, "timeout"):
+                saved[m] = m.timeout
+                m.timeout = fake_timeout
+        arm(sb, state, log, with_stdout)
+        try:
+            if hasattr(sb, "_execute_with_timeout"):
+                call = lambda: sb._execute_with_timeout("pass", "c14_probe.py", smod.SandboxContextKind.RUN)
+            else:
+                call = lambda: sb._execute("pass", "c14_probe.py", smod.SandboxContextKind.RUN, True)
+            ex = classify_exit(call)
+        finally:
+            state["armed"] = False
+            for m, f in saved.items():
+                m.timeout = f
+        if not fired:
+            raise RuntimeError("the threaded execution path never called timeout()")
+        trees[with_stdout] = merge_traces([(number_opaque(log, table, "the TimeoutError handler"), ex)], table,
+                                          "the TimeoutError handler")
+    return ("ask", "haveStdout", trees[True], trees[False])
+
+
+def probe_trees(table, claim_name):
+    out, notes = {}, {}
+
+    def attempt(name, thunk):
+        real_stdout = __import__("sys").stdout
+        try:
+            out[name] = thunk()
+        except Exception as e:
+            notes[name + "_probe_error"] = "%s: %s" % (type(e).__name__, e)
+            out[name] = ("opaque", table.idx(("probe-fail", name), "measurement of %s failed: %s: %s" % (name, type(e).__name__, e)))
+        finally:
+            __import__("sys").stdout = real_stdout
+    attempt("grader", lambda: probe_grader(table, claim_name))
+    attempt("student", lambda: probe_student(table, claim_name))
+    attempt("handler", lambda: probe_handler(table))
+    return out, notes
 
 
 def term_tolerant():
-    import importlib
-    mod = importlib.import_module("pedal.sandbox.timeout")
-    if os.path.realpath(mod.__file__) != os.path.realpath(os.path.join(REPO, "pedal", "sandbox", "timeout.py")):
-        raise RuntimeError("pedal.sandbox.timeout imported from %s, not from the tree under test" % mod.__file__)
+    mod = import_tree_module("pedal.sandbox.timeout", ("pedal", "sandbox", "timeout.py"))
     t = mod.InterruptableThread(lambda: None, (), {})
     t.start()
     t.join()
@@ -103,31 +1037,52 @@ def term_tolerant():
     return True
 
 
+# ----------------------------------------------------------------------------------------------------------------
+
 def translate():
-    f = facts()
-    b = lambda v: "true" if v else "false"
-    src = "\n".join([
-        "/- GENERATED by harness/translate_timeout.py from the tree under test. Do not edit. -/",
-        "namespace Pedal.Gen.Timeout",
-        "",
-        "/-- `timeout()` abandons the thread only after winning `claim_finish()` AND `Sandbox._stop_mocking`",
-        "starts by checking `_claim_finish()` -/",
-        "def claim : Bool := " + b(f["claim"]),
-        "/-- the `except TimeoutError` handler pops the execution's stdout buffer and appends its output -/",
-        "def handlerPops : Bool := " + b(f["handlerPops"]),
-        "/-- the `except TimeoutError` handler advances `_next_context_id` -/",
-        "def handlerBumps : Bool := " + b(f["handlerBumps"]),
-        "/-- `InterruptableThread.terminate()` on a thread that has already ended returns normally -/",
-        "def termTolerant : Bool := " + b(f["termTolerant"]),
+    table = Table()
+    asts, claim_name, notes = ast_trees(table)
+    probes, pnotes = probe_trees(table, claim_name)
+    notes.update(pnotes)
+    tolerant = term_tolerant()
+    lines = [
+        "import PedalModel.TimeoutIR",
+        "/- GENERATED by harness/translate_timeout.py from the tree under test. Do not edit.",
+        "   `...Ast`: symbolic execution of the source (helpers inlined, locals followed); `...Probe`: measured on the running",
+        "   code.  Numbered questions / operations:",
+    ]
+    for i, t in enumerate(table.texts):
+        lines.append("     %d  %s" % (i, t.replace("-/", "- /").replace("/-", "/ -")))
+    lines += ["-/", "namespace Pedal.Gen.Timeout", "open Pedal.TimeoutIR", ""]
+    docs = {
+        "grader": "`timeout()` (pedal/sandbox/timeout.py)",
+        "student": "`Sandbox._stop_mocking` (pedal/sandbox/sandbox.py), as run by the thread that executed the student's code",
+        "handler": "`Sandbox._execute_with_timeout` from the moment `timeout(...)` raises TimeoutError",
+    }
+    for name in ("grader", "student", "handler"):
+        lines.append("/-- %s, read from the source -/" % docs[name])
+        lines.append("def %sAst : Tree :=\n%s" % (name, lean_tree(asts[name])))
+        lines.append("/-- %s, measured -/" % docs[name])
+        lines.append("def %sProbe : Tree :=\n%s" % (name, lean_tree(probes[name])))
+        lines.append("")
+    lines += [
+        "/-- `InterruptableThread.terminate()` on a thread that has already ended returns normally (measured) -/",
+        "def termTolerant : Bool := " + ("true" if tolerant else "false"),
         "",
         "end Pedal.Gen.Timeout",
         "",
-    ])
+    ]
+    src = "\n".join(lines)
     changed = write_if_changed(OUT, src)
-    f.update({"file": os.path.relpath(OUT, LEAN_DIR), "sha1": hashlib.sha1(src.encode()).hexdigest()[:12],
-              "changed": changed})
-    return f
+    info = {"claim_method": claim_name, "termTolerant": tolerant,
+            "tree_sizes": {k + "Ast": tree_size(v) for k, v in asts.items()} | {k + "Probe": tree_size(v) for k, v in probes.items()},
+            "file": os.path.relpath(OUT, LEAN_DIR), "sha1": hashlib.sha1(src.encode()).hexdigest()[:12], "changed": changed}
+    info.update(notes)
+    return info
 
 
 if __name__ == "__main__":
-    print(translate())
+    import json
+    print(json.dumps(translate(), indent=1))
+    with open(OUT) as fh:
+        print(fh.read())
